@@ -290,6 +290,21 @@ def judge_C13(mm):
             return ('a wildcard-free pattern of the documented form, presented verbatim as an Origin, is not even parsed by the '
                     'request-side lexer (so it cannot be allowed): %r (%d bytes)' % (sb[:80], len(sb)))
         return None
+    if f[0] == 'validate':
+        # a configuration: every listed string with a documented defect must be named by an error
+        cfg = f[1].split('|')
+        if cfg[0] in ('~', ''):
+            return None
+        for x in cfg[0].split(','):
+            o = b'' if x == '-' else bytes.fromhex(x)
+            d = _defect(o)
+            if not d or o == b'*':
+                continue
+            if mm['impl'].startswith('ok'):
+                return 'a configuration listing a pattern with the documented defect [%s] is accepted: %r' % (d, o[:120])
+            if mm['impl'].startswith('err ') and x not in mm['impl']:
+                return 'no error names the listed pattern with the documented defect [%s]: %r' % (d, o[:120])
+        return None
     if f[0] != 'pattern':
         return None
     sb = b'' if f[1] == '-' else bytes.fromhex(f[1])
@@ -301,4 +316,19 @@ def judge_C13(mm):
         return 'a pattern with the documented defect [%s] is accepted: %r' % (d, sb[:120])
     if mm['impl'].startswith('err-bad-type-or-value'):
         return 'the error does not name the pattern with an UnacceptableOriginPatternError'
+    if accepted and b'*' not in sb and b'://' in sb:
+        # self-match clause: the accepted pattern is stored under the parts the implementation reports; presented verbatim as an
+        # Origin, the string is read into the host text between `://` and the port (brackets stripped), which must be the stored value
+        # (C13_accepted_form: an accepted pattern is scheme://value[:port])
+        fi = mm['impl'].split(' ')
+        if len(fi) >= 3:
+            value = b'' if fi[2] == '-' else bytes.fromhex(fi[2])
+            rest = sb.split(b'://', 1)[1]
+            if rest.startswith(b'[') and b']' in rest:
+                host = rest[1:rest.index(b']')]
+            else:
+                host = rest.rsplit(b':', 1)[0] if b':' in rest else rest
+            if host != value:
+                return ('the accepted wildcard-free pattern %r is stored with host %r: presented verbatim as an Origin (host %r) it is not allowed by itself'
+                        % (sb[:120], value[:80], host[:80]))
     return None
